@@ -35,6 +35,56 @@ def run_block(V, rng, torch, torchtt, ttm, dist, n_pairs):
             except Exception as ex:
                 V.fail("mixed dtypes: %s raises %s" % (name, type(ex).__name__), dict(desc, exc=str(ex)[:200]))
         dist["mixed dtype pair"] = dist.get("mixed dtype pair", 0) + 1
+    # operands of two dtypes AND different structure: trailing-dimension / size-1 broadcasting (tensors), Kronecker product (tensors and operators)
+    for j, (a, b) in enumerate(pairs[:n_pairs]):
+        d = rng.choice([2, 3]); N = [rng.choice([2, 3]) for _ in range(d)]; M = [rng.choice([1, 2]) for _ in range(d)]
+        x = mk(a, N, M, [1] + [rng.choice([1, 2]) for _ in range(d - 1)] + [1])
+        pd = torch.promote_types(a, b)
+        if not ttm:
+            k = rng.choice(list(range(1, d + 1))); Ny = [n_ if (rng.random() < 0.6 or k == d) else 1 for n_ in N[d - k:]]
+            if k == d and Ny == N: Ny[rng.randrange(d)] = 1
+            y = mk(b, Ny, Ny, [1] + [rng.choice([1, 2]) for _ in range(k - 1)] + [1])
+            for name, op in ops:
+                desc = {"mixed_dtype_broadcast": True, "op": name, "left": str(a), "right": str(b), "N": N, "N_right": Ny}
+                try:
+                    r = op(x, y); ref = op(x.full().to(pd), y.full().to(pd))
+                    if any(c.dtype != pd for c in r.cores): V.fail("mixed dtypes, broadcasting: %s does not have the promoted dtype in every core" % name, dict(desc, got=[str(c.dtype) for c in r.cores], want=str(pd)))
+                    elif list(r.full().shape) != list(ref.shape) or not torch.equal(r.full(), ref): V.fail("mixed dtypes, broadcasting: %s differs from the dense result in the promoted dtype" % name, desc)
+                except Exception as ex:
+                    V.fail("mixed dtypes, broadcasting: %s raises %s" % (name, type(ex).__name__), dict(desc, exc=str(ex)[:200]))
+            dist["mixed dtype pair, broadcasting"] = dist.get("mixed dtype pair, broadcasting", 0) + 1
+        d2 = rng.choice([1, 2]); N2 = [rng.choice([2, 3]) for _ in range(d2)]; M2 = [rng.choice([1, 2]) for _ in range(d2)]
+        y = mk(b, N2, M2, [1] + [rng.choice([1, 2]) for _ in range(d2 - 1)] + [1])
+        for name, op in (("**", lambda u, v: u ** v), ("kron", lambda u, v: torchtt.kron(u, v))):
+            desc = {"mixed_dtype_kron": True, "ttm": ttm, "op": name, "left": str(a), "right": str(b), "N": N, "N_right": N2}
+            try:
+                r = op(x, y); ref = torch.tensordot(x.full().to(pd), y.full().to(pd), dims=0)
+                if ttm: ref = ref.permute(list(range(d)) + list(range(2 * d, 2 * d + d2)) + list(range(d, 2 * d)) + list(range(2 * d + d2, 2 * d + 2 * d2)))
+                if any(c.dtype != pd for c in r.cores): V.fail("mixed dtypes: Kronecker product (%s) does not have the promoted dtype in every core" % name, dict(desc, got=[str(c.dtype) for c in r.cores], want=str(pd)))
+                elif list(r.full().shape) != list(ref.shape) or not torch.equal(r.full(), ref): V.fail("mixed dtypes: Kronecker product (%s) differs from the dense result in the promoted dtype" % name, desc)
+                else:
+                    rr = (r + r).full()                      # and the result is usable as an operand
+                    if not torch.equal(rr, 2 * ref): V.fail("mixed dtypes: the Kronecker product (%s) is not usable as an operand" % name, desc)
+            except Exception as ex:
+                V.fail("mixed dtypes: Kronecker product (%s) raises %s" % (name, type(ex).__name__), dict(desc, exc=str(ex)[:200]))
+        dist["mixed dtype pair, Kronecker"] = dist.get("mixed dtype pair, Kronecker", 0) + 1
+    # a scalar that is exactly zero and of a wider kind than the operand: the dtype of the result is the dtype of the dense product, exactly as for every other value
+    zs = [("0j", lambda: 0j), ("np.complex128(0)", lambda: np.complex128(0)), ("torch.tensor(0j)", lambda: torch.tensor(0j)), ("torch.tensor([0.], float64)", lambda: torch.tensor([0.0], dtype=torch.float64)),
+          ("torch.tensor([0j])", lambda: torch.tensor([0j], dtype=torch.complex128)), ("0.0", lambda: 0.0), ("0", lambda: 0)]
+    for nm, mkz in zs:
+        for dt in (torch.float32, torch.float64, torch.complex64):
+            d = rng.choice([1, 2, 3]); N = [rng.choice([1, 2, 3]) for _ in range(d)]; M = [rng.choice([1, 2]) for _ in range(d)]
+            x = mk(dt, N, M, [1] + [rng.choice([1, 2]) for _ in range(d - 1)] + [1])
+            for name, op in (("x*0", lambda u, z: u * z), ("0*x", lambda u, z: z * u)):
+                if name == "0*x" and nm.startswith("torch"): continue          # tensor * TT is torch's own dispatch, not the library's
+                z = mkz(); desc = {"zero_scalar": nm, "ttm": ttm, "op": name, "dtype": str(dt), "N": N, "M": M if ttm else None}
+                try:
+                    r = op(x, z); want = (x.full() * z).dtype
+                    if any(c.dtype != want for c in r.cores): V.fail("zero scalar of a wider kind: %s does not have the dtype of the dense product" % name, dict(desc, got=[str(c.dtype) for c in r.cores], want=str(want)))
+                    elif list(r.full().shape) != list(x.full().shape) or bool((r.full() != 0).any()): V.fail("zero scalar: %s is not the zero tensor of the operand's shape" % name, desc)
+                except Exception as ex:
+                    V.fail("zero scalar: %s raises %s" % (name, type(ex).__name__), dict(desc, exc=str(ex)[:200]))
+            dist["zero scalar of a wider kind"] = dist.get("zero scalar of a wider kind", 0) + 1
     # scalars that are not exactly representable in single precision
     for s in (0.1, -1.0 / 3.0, math.pi, torch.tensor(0.3, dtype=torch.float64), np.float64(0.7), np.int64(4), np.int32(-2), np.float32(0.5), np.uint8(2), np.float16(0.25)):
         for dt in (torch.float64, torch.complex128):
@@ -48,7 +98,7 @@ def run_block(V, rng, torch, torchtt, ttm, dist, n_pairs):
                     ref = {"x+s": xf + sv, "s+x": sv + xf, "x-s": xf - sv, "s-x": sv - xf, "x*s": xf * sv, "s*x": sv * xf, "x/s": xf / sv}[name]
                     err = float((r.full() - ref).abs().max()); scale = float(ref.abs().max()) + abs(sv)
                     if r.cores[0].dtype != dt: V.fail("non-dyadic scalar: %s changes the dtype" % name, dict(desc, got=str(r.cores[0].dtype)))
-                    elif err > 1e-14 * scale: V.fail("non-dyadic scalar: %s differs from the dense result beyond double round-off" % name, dict(desc, abs_err=err))
+                    elif not (err <= 1e-14 * scale): V.fail("non-dyadic scalar: %s differs from the dense result beyond double round-off" % name, dict(desc, abs_err=err))
                 except Exception as ex:
                     V.fail("non-dyadic scalar: %s raises %s" % (name, type(ex).__name__), dict(desc, exc=str(ex)[:200]))
             dist["non-dyadic scalar"] = dist.get("non-dyadic scalar", 0) + 1
@@ -65,7 +115,7 @@ def run_block(V, rng, torch, torchtt, ttm, dist, n_pairs):
                     ref = {"x*s": xf * sv, "s*x": sv * xf, "x+s": xf + sv, "s-x": sv - xf, "x/s": xf / sv}[name]
                     err = float((r.full().to(torch.complex128) - ref).abs().max()); scale = float(ref.abs().max()) + abs(sv)
                     if not r.full().is_complex(): V.fail("complex scalar: %s on a %s operand returns a real result" % (name, "complex" if dt.is_complex else "real"), dict(desc, got=str(r.cores[0].dtype)))
-                    elif err > 1e-14 * scale: V.fail("complex scalar: %s differs from the dense result (imaginary part lost?)" % name, dict(desc, abs_err=err))
+                    elif not (err <= 1e-14 * scale): V.fail("complex scalar: %s differs from the dense result (imaginary part lost?)" % name, dict(desc, abs_err=err))
                 except Exception as ex:
                     V.fail("complex scalar: %s raises %s" % (name, type(ex).__name__), dict(desc, exc=str(ex)[:200]))
             dist["complex scalar"] = dist.get("complex scalar", 0) + 1
